@@ -1,6 +1,7 @@
 import TangeloModel.Sem
 import TangeloProofs.CycRing
 import TangeloProofs.Lemmas.SemBasic
+import TangeloProofs.Lemmas.Isometry
 import Mathlib.Algebra.Group.Units.Basic
 import Mathlib.Algebra.Group.Basic
 import Mathlib.Tactic.Ring
@@ -150,5 +151,55 @@ theorem cycConsts_laws : Consts.Laws cycConsts where
   e_zero := Ang.e_zero
   e_add := Ang.e_add
   e_pi := Ang.e_pi
+
+/-! ## conjugation -/
+namespace Cyc
+
+theorem star_def (a : Cyc) : star a = conj a := rfl
+
+theorem star_zetaPow_mul (n : Int) : star (zetaPow n) * zetaPow n = 1 := by
+  unfold zetaPow
+  rw [zetaPowNat_eq_pow, star_pow, ← mul_pow, star_zeta_mul, one_pow]
+
+theorem star_zetaPow (n : Int) : star (zetaPow n) = zetaPow (-n) := by
+  have h1 := star_zetaPow_mul n
+  have h2 : zetaPow (-n) * zetaPow n = 1 := by
+    rw [← zetaPow_add]; simp only [neg_add_cancel]
+    ext <;> simp [zetaPow, zetaPowNat]
+  calc star (zetaPow n) = star (zetaPow n) * (zetaPow (-n) * zetaPow n) := by rw [h2, mul_one]
+    _ = (star (zetaPow n) * zetaPow n) * zetaPow (-n) := by ring
+    _ = zetaPow (-n) := by rw [h1, one_mul]
+
+end Cyc
+
+namespace Ang
+
+theorem star_ptPow (c s : Rat) (k : Int) : star (ptPow c s k) = ptPow c s (-k) := by
+  have hp : star (⟨c, 0, 0, 0, s, 0, 0, 0⟩ : Cyc) = ⟨c, 0, 0, 0, -s, 0, 0, 0⟩ := by
+    ext <;> simp [Cyc.star_def, Cyc.conj]
+  have hq : star (⟨c, 0, 0, 0, -s, 0, 0, 0⟩ : Cyc) = ⟨c, 0, 0, 0, s, 0, 0, 0⟩ := by
+    ext <;> simp [Cyc.star_def, Cyc.conj]
+  unfold ptPow
+  rcases lt_trichotomy k 0 with hk | hk | hk
+  · have h2 : ¬ (-k < 0) := by omega
+    simp only [hk, if_true, h2, if_false, Cyc.npow_eq_pow, star_pow, hq, Int.natAbs_neg]
+  · subst hk; simp [Cyc.npow]
+  · have h1 : ¬ (k < 0) := by omega
+    have h2 : -k < 0 := by omega
+    simp only [h1, if_false, h2, if_true, Cyc.npow_eq_pow, star_pow, hp, Int.natAbs_neg]
+
+theorem star_e (a : Ang) : star (e a) = e (-a) := by
+  rw [e_unfold, e_unfold (-a)]
+  simp only [star_mul', Cyc.star_zetaPow, star_ptPow]
+  rfl
+
+end Ang
+
+/-- conjugation on the executable constants -/
+theorem cycConsts_starLaws : Consts.StarLaws cycConsts where
+  star_i := Cyc.star_I
+  star_rsqrt2 := by ext <;> simp [cycConsts, Cyc.star_def, Cyc.conj, Cyc.rsqrt2] <;> norm_num
+  star_half := by ext <;> simp [cycConsts, Cyc.star_def, Cyc.conj, Cyc.half, Cyc.ofRat]
+  star_e := Ang.star_e
 
 end Tangelo
